@@ -327,7 +327,7 @@ def main(argv=None):
                     info["native_replay"] = f"replay-error: {e}"
             path = REPLAYS / f"{prop}-{r.unit}-{r.harness.name}.json"
             log_txt = Path(r.log_path).read_text(errors="replace")
-            fails = [x for x in r.failed]
+            fails = [x for rr, x in violations if rr is r] + [x for x in r.failed if not any(x is y for rr, y in violations if rr is r)]
             path.write_text(json.dumps({
                 "property": prop, "unit": r.unit, "harness": r.harness.name, "tier": tier,
                 "failed_obligations": [{"check": x.name, "description": x.description, "location": x.location} for x in fails],
